@@ -164,8 +164,11 @@ class XorEncodedFile(io.RawIOBase):
 
     def seek(self, offset, whence=io.SEEK_SET):
         if whence == io.SEEK_SET:
-            return self.fh.seek(offset + self.nonce_offset + 8, whence)
-        return self.fh.seek(offset, whence)
+            self.fh.seek(offset + self.nonce_offset + 8, whence)
+        else:
+            self.fh.seek(offset, whence)
+        # like any file object, return the new position (in the decoded data, not in the underlying file)
+        return self.tell()
 
     def read(self, n=-1):
         data = b""
